@@ -24,6 +24,7 @@ def write_if_changed(path, text):
     if not os.path.exists(path) or open(path).read() != text:
         open(path, "w").write(text)
 write_if_changed(os.path.join(here, "Drivers", "Dispatch.lean"), "\n".join(out))
+write_if_changed(os.path.join(here, "Drivers.lean"), "import Drivers.Main\n")
 for lib in ("RallyModel", "RallyProofs", "RallyProps", "RallyGen"):
     mods = sorted(f[:-5] for f in os.listdir(os.path.join(here, lib)) if f.endswith(".lean"))
     write_if_changed(os.path.join(here, lib + ".lean"), "\n".join(f"import {lib}.{m}" for m in mods) + "\n")
